@@ -27,6 +27,21 @@ struct bit_field
     unsigned int shift; // Bit position from right to left
 };
 
+/// Value of the channel a mask selects from a pixel, scaled to 8 bits.
+/// Masks come from the file: an empty mask selects nothing, a mask wider than 8 bits keeps its 8 most significant bits.
+inline int extract_channel( unsigned int pixel, bit_field const& field )
+{
+    if( field.mask == 0 )
+    {
+        return 0;
+    }
+
+    unsigned int value = ( pixel & field.mask ) >> field.shift;
+
+    return static_cast< int >( field.width <= 8 ? value << ( 8 - field.width )
+                                                : value >> ( field.width - 8 ));
+}
+
 /// BMP color masks
 struct color_mask
 {
